@@ -924,16 +924,25 @@ Qed.
 Section MaterializeDefaults.
   Variable e : sigenv.
 
-  Definition mat_node : node -> node :=
-    on_buildable (fun fn args => materialize (sig_of e fn) args).
-
-  Lemma materialize_defaults_unfold h r : materialize_defaults e h r = map_run e mat_node h r.
+  (* the node function is the model's Transform.mat_node: a TaggedValue is left alone, every other
+     Buildable has its argument store materialized *)
+  Lemma materialize_defaults_unfold h r : materialize_defaults e h r = map_run e (mat_node e) h r.
   Proof. reflexivity. Qed.
 
-  Lemma mat_node_idem n : mat_node (mat_node n) = mat_node n.
+  Lemma mat_node_buildable k fn args tags :
+    mat_node e (NBuildable k fn args tags) =
+      NBuildable k fn (match k with BTagged => args | _ => materialize (sig_of e fn) args end) tags.
+  Proof. destruct k; reflexivity. Qed.
+
+  Lemma mat_node_other n :
+    (forall k fn args tags, n <> NBuildable k fn args tags) -> mat_node e n = n.
+  Proof. intros Hnb. destruct n; try reflexivity. exfalso. eapply Hnb. reflexivity. Qed.
+
+  Lemma mat_node_idem n : mat_node e (mat_node e n) = mat_node e n.
   Proof.
-    destruct n; try reflexivity. unfold mat_node. cbn [on_buildable].
-    rewrite materialize_idempotent. reflexivity.
+    destruct n; try reflexivity.
+    rewrite !mat_node_buildable. destruct k; try reflexivity;
+      rewrite materialize_idempotent; reflexivity.
   Qed.
 
   Theorem materialize_defaults_length h r : length (materialize_defaults e h r) = length h.
@@ -949,19 +958,29 @@ Section MaterializeDefaults.
     exists args', nth_error (materialize_defaults e h r) i = Some (NBuildable k fn args' tags) /\
                   (args' = args \/ args' = materialize (sig_of e fn) args).
   Proof.
-    intros Hn. rewrite materialize_defaults_unfold, (map_run_node e mat_node h r i _ Hn).
-    destruct (existsb (Nat.eqb i) (mvisited e mat_node h r)).
-    - eexists. split; [reflexivity | right; reflexivity].
+    intros Hn. rewrite materialize_defaults_unfold, (map_run_node e (mat_node e) h r i _ Hn).
+    destruct (existsb (Nat.eqb i) (mvisited e (mat_node e) h r)).
+    - rewrite mat_node_buildable. eexists. split; [reflexivity |].
+      destruct k; solve [right; reflexivity | left; reflexivity].
     - eexists. split; [reflexivity | left; reflexivity].
+  Qed.
+
+  (* a TaggedValue is never touched, reachable or not *)
+  Theorem materialize_defaults_tagged h r i fn args tags :
+    nth_error h i = Some (NBuildable BTagged fn args tags) ->
+    nth_error (materialize_defaults e h r) i = Some (NBuildable BTagged fn args tags).
+  Proof.
+    intros Hn. rewrite materialize_defaults_unfold, (map_run_node e (mat_node e) h r i _ Hn).
+    destruct (existsb (Nat.eqb i) (mvisited e (mat_node e) h r)); reflexivity.
   Qed.
 
   Theorem materialize_defaults_other h r i n :
     nth_error h i = Some n -> (forall k fn args tags, n <> NBuildable k fn args tags) ->
     nth_error (materialize_defaults e h r) i = Some n.
   Proof.
-    intros Hn Hnb. rewrite materialize_defaults_unfold, (map_run_node e mat_node h r i _ Hn).
-    destruct (existsb (Nat.eqb i) (mvisited e mat_node h r)); [| reflexivity].
-    destruct n; try reflexivity. exfalso. eapply Hnb. reflexivity.
+    intros Hn Hnb. rewrite materialize_defaults_unfold, (map_run_node e (mat_node e) h r i _ Hn).
+    destruct (existsb (Nat.eqb i) (mvisited e (mat_node e) h r)); [| reflexivity].
+    rewrite (mat_node_other n Hnb). reflexivity.
   Qed.
 
   (* hence every Buildable of the graph is called exactly as before *)
@@ -980,16 +999,36 @@ Section MaterializeDefaults.
       split; [apply materialize_preserves_inv | apply materialize_preserves_build]; assumption.
   Qed.
 
-  (* every Buildable that the root still reaches has all its defaults stored *)
+  (* every Buildable that the root still reaches, except a TaggedValue (which is left unchanged),
+     has all its defaults stored *)
   Theorem materialize_defaults_reachable h r i k fn args tags :
-    wf_b e (map mat_node h) = true -> root_ok h r ->
+    wf_b e (map (mat_node e) h) = true -> root_ok h r ->
     nth_error h i = Some (NBuildable k fn args tags) ->
     creach e (materialize_defaults e h r) r i ->
     nth_error (materialize_defaults e h r) i =
-      Some (NBuildable k fn (materialize (sig_of e fn) args) tags).
+      Some (NBuildable k fn
+              (match k with BTagged => args | _ => materialize (sig_of e fn) args end) tags).
   Proof.
     intros Hwf Hroot Hn Hc. rewrite materialize_defaults_unfold in *.
-    apply (proj1 (map_run_nodes e mat_node h r Hwf Hroot i _ Hn) Hc).
+    rewrite <- mat_node_buildable.
+    apply (proj1 (map_run_nodes e (mat_node e) h r Hwf Hroot i _ Hn) Hc).
+  Qed.
+
+  (* ... so afterwards every parameter of such a Buildable that has a default value (not a
+     default_factory) is stored *)
+  Theorem materialize_defaults_reachable_total h r i k fn args tags :
+    wf_b e (map (mat_node e) h) = true -> root_ok h r ->
+    nth_error h i = Some (NBuildable k fn args tags) -> k <> BTagged ->
+    creach e (materialize_defaults e h r) r i ->
+    exists args', nth_error (materialize_defaults e h r) i = Some (NBuildable k fn args' tags) /\
+      forall j p d, nth_error (sig_of e fn) j = Some p -> pdefault p = Some d -> pfactory p = false ->
+        (pk p = PosOnly \/ pk p = PosOrKw \/ pk p = KwOnly) ->
+        smem args' (match pk p with PosOnly => kpos j | _ => KName (pname p) end) = true.
+  Proof.
+    intros Hwf Hroot Hn Hk Hc. exists (materialize (sig_of e fn) args). split.
+    - rewrite (materialize_defaults_reachable h r i k fn args tags Hwf Hroot Hn Hc).
+      destruct k; try reflexivity. exfalso. apply Hk. reflexivity.
+    - intros j p d Hj Hd Hf Hpk. eapply materialize_total; eassumption.
   Qed.
 End MaterializeDefaults.
 
